@@ -156,10 +156,10 @@ MANIFEST_TEXT = {
     "C09": T("deterministic simulation with a seeded scheduler (uniform and priority policies): logout raced against 1-2 checks on the same session at store-call and token-endpoint granularity; fault injection on session removal; requests spread over 1-3 replicas sharing Redis",
              "Verdicts are ordered against the completion of the logout response by global event sequence numbers; any check invoked after it, and any in-flight refresh finishing after it, must not be OK; "
              "a failed removal must yield an error answer. Exploration over schedules; determinism self-test (GOMAXPROCS 1/4/16)."),
-    "C10": T("deterministic simulation on a fake clock: store-level histories against a timeout model (memory store, two Redis store instances on miniredis) and system-level probes through the start-up wiring, crash-restart with Redis",
+    "C10": T("deterministic simulation on a fake clock: store-level histories against a timeout model (memory store, two Redis store instances on miniredis) and system-level probes through the start-up wiring (tokens that stay fresh, or that are refreshed several times inside the absolute limit), crash-restart with Redis",
              "Reads on either side of each limit (limit +-2 s, fractions, multiples) for all (absolute, idle) pairs from an 8-value grid incl. 0; one second of granularity tolerated; definite vs possible uses tracked separately so that only what the statement promises is demanded. Exploration.",
              "The replica is assembled by the same constructors in the same order as cmd/main.go (hand-mirrored, not generated from main.go): a sweeper registered as a NEW run.Group unit in main.go would not be seen."),
-    "C11": T("deterministic simulation over many token lifetimes against a provider with a refresh-token ledger (rotation, omitted members, key rollover, denial, forged answers, lost replies)",
+    "C11": T("deterministic simulation over many token lifetimes against a provider with a refresh-token ledger (rotation, omitted members, key rollover with and without caching headers on the key endpoint, denial, forged answers, lost replies, Envoy giving up mid-refresh), 1-3 replicas sharing Redis",
              "Every refresh exchange is checked against the ledger (most recently issued refresh token, well-formed grant, credentials); a successful exchange must yield OK with the merged result in headers and store, "
              "a failed one must end the session and send the browser to login. Key rollover windows in which both outcomes are legitimate are not judged. Exploration."),
     "C12": T("deterministic simulation: sequential refinement of memory and Redis stores against a plain-map model with Redis command faults and crashes between commands (a MULTI/EXEC transaction is one command); concurrent memory-store histories, with and without session timeouts configured on an aged store, checked for linearizability (porcupine); a runtime-fatal error of the worker is a verdict",
@@ -177,7 +177,7 @@ MANIFEST_TEXT = {
              "4-12 concurrent tasks of every request kind plus Secret reconcile, CA-file rewrite and TLS-config load; race reports are canonicalised to the pair of innermost authservice functions; a planted-race positive control and "
              "a locked negative control run at the start of every worker. Exploration over schedules.",
              "TSan keeps a bounded access history; the token-endpoint model uses a mutex, which can order some accesses of different tasks (schedule-dependent, mitigated by exploring many schedules). JWKS background refresh is not overlapped with checks."),
-    "C18": T("deterministic simulation: 2-3 filters over seven store topologies (one with a Redis server unreachable while the service starts); sessions of one filter presented to the others; concurrent logins at all filters; per-filter limit probes on the fake clock",
+    "C18": T("deterministic simulation: 2-3 filters over eight store topologies (one with a Redis server unreachable while the service starts, one with discovered end-session endpoints), written as separate oidc blocks or as default_oidc_config plus per-chain overrides; sessions of one filter presented to the others; concurrent logins at all filters; per-filter limit probes on the fake clock",
              "OK verdicts are attributed to the filter whose redirect issued the session; forwarded tokens must verify under the judging filter's keys and audience; token requests must reach the judging filter's provider with its credentials; "
              "each filter's own limits are probed 2 s before/after. Exploration."),
     "C19": T("deterministic simulation: the simulator plays the Kubernetes API server (fake client whose reads can fail) and manager (re-queues a reconcile that returned an error), delivering reconciles with duplication, delay and reordering, interleaved with logins and refreshes, and racing a rotation against a callback in flight under the seeded scheduler",
